@@ -1,8 +1,13 @@
 mod driver;
 mod c08;
 mod c09;
+mod c11;
 mod gql;
 mod c13;
+mod c14;
+mod c15;
+mod c17;
+mod c26;
 mod tsx;
 mod progx;
 mod sweep;
@@ -28,6 +33,11 @@ fn main() {
         "C08" => std::process::exit(c08::main(&args)),
         "C13" => std::process::exit(c13::main(&args)),
         "C09" => std::process::exit(c09::main(&args)),
+        "C11" => std::process::exit(c11::main(&args)),
+        "C14" => std::process::exit(c14::main(&args)),
+        "C15" => std::process::exit(c15::main(&args)),
+        "C17" => std::process::exit(c17::main(&args)),
+        "C26" => std::process::exit(c26::main(&args)),
         "show" => {
             // show <menu> <k> <index|all>
             let m = match args.rest[0].as_str() { "args" => progx::Menu::Args, "abstract" => progx::Menu::Abstract, "cycles" => progx::Menu::Cycles, _ => progx::Menu::General };
